@@ -47,6 +47,9 @@ RULE = ("shapes: gen.convex_solid (all kinds, random rigid motion/offset/scale) 
         "points targeted at the rounding shell r(1 +- 1e-4..0.25) of every edge near its ends (fan swept by angle) and of "
         "every vertex; a third of the objects of every class reached through a history (harness/history.py: scaled copy, "
         "all members and queries read, size/centroid/radius setters); batches of 1..2000, shapes (3,) and (N,3). "
+        "exactly certified spheropolyhedra: dyadic axis-aligned boxes with dyadic radius (spheroExactCheck on the "
+        "implementation's own planes/faces/prisms) and dyadic probes exactly at distance r, r/2, 2r, r +- 2^-10 from faces, "
+        "edges ((3,4)/5 offsets) and vertices ((2,3,6)/7 offsets), judged without margin; "
         "distinct = distinct (shape, batch); "
         "non-trivial = batch containing certified inside and outside points")
 ASSUMPTIONS = [
@@ -983,6 +986,148 @@ def eval_solid(ctx, case):
     ray_certificate(ctx, "Polyhedron.is_inside", tris, P, res, expect, bdist * pl["s"], size, case, labels, rng)
 
 
+# --------------------------------------------------------------------------- exactly certified spheropolyhedra (boxes)
+
+
+def make_exactbox_case(ctx, rng):
+    """axis-aligned dyadic box as the core, dyadic radius r = 35 * 2^-j (so that r*(3,4)/5 and r*(2,3,6)/7 are dyadic):
+    everything the implementation computes on the probes below is exact in binary floating point."""
+    sc = float(2.0 ** int(rng.integers(-2, 3)))
+    ext = rng.integers(1, 7, size=3).astype(float) * sc
+    lo = rng.integers(-8, 9, size=3).astype(float) * sc
+    hi = lo + ext
+    r = 0.0 if rng.random() < 0.1 else 35.0 * float(2.0 ** -int(rng.integers(3, 9))) * sc
+    rr = r if r > 0 else 35.0 / 64 * sc
+    eps = sc * 2.0 ** -10
+    pts, lab = [], []
+
+    def frac():
+        return float(rng.choice([0.0, 0.25, 0.5, 0.75, 1.0]))
+    for _ in range(ctx.budget(160, 400)):
+        c = rng.random()
+        sgn = rng.choice([-1.0, 1.0], size=3)
+        corner = np.where(sgn > 0, hi, lo)
+        scale = float(rng.choice([1.0, 1.0, 1.0, 0.5, 2.0]))
+        bump = float(rng.choice([0.0, 0.0, eps, -eps]))
+        if c < 0.3:      # above a face, exactly at distance scale*r (+ bump)
+            a = int(rng.integers(3))
+            q = lo + np.array([frac(), frac(), frac()]) * ext
+            q[a] = corner[a] + sgn[a] * (scale * rr + bump)
+            pts.append(q); lab.append("exact-face" + ("" if bump else ":on-boundary" if scale == 1.0 else ""))
+        elif c < 0.6:    # next to an edge, offset (3,4)/5 of scale*r in the two transverse directions
+            a = int(rng.integers(3))
+            b, d = [x for x in range(3) if x != a]
+            if rng.random() < 0.5:
+                b, d = d, b
+            q = lo + np.array([frac(), frac(), frac()]) * ext
+            q[b] = corner[b] + sgn[b] * (0.6 * scale * rr + bump)
+            q[d] = corner[d] + sgn[d] * 0.8 * scale * rr
+            pts.append(q); lab.append("exact-edge" + ("" if bump else ":on-boundary" if scale == 1.0 else ""))
+        elif c < 0.85:   # next to a vertex, offset (2,3,6)/7 of scale*r, permuted
+            off = np.array([2.0, 3.0, 6.0])[rng.permutation(3)] / 7.0 * scale * rr
+            off[0] += bump
+            pts.append(corner + sgn * off); lab.append("exact-vertex" + ("" if bump else ":on-boundary" if scale == 1.0 else ""))
+        else:            # dyadic lattice point of the enlarged box
+            q = lo - 2 * rr + rng.integers(0, 33, size=3) / 32.0 * (ext + 4 * rr)
+            pts.append(np.round(q / eps) * eps); lab.append("exact-lattice")
+    return {"class": "exactbox", "lo": lo.tolist(), "hi": hi.tolist(), "radius": r, "points": np.array(pts).tolist(),
+            "labels": lab}
+
+
+def box_exact_inside(lo, hi, r, P):
+    """the exact criterion dist(p, box)^2 <= r^2 over the rationals"""
+    from fractions import Fraction as Fr
+    lo = [Fr(float(x)) for x in lo]
+    hi = [Fr(float(x)) for x in hi]
+    r2 = Fr(float(r)) ** 2
+    out = []
+    for p in P:
+        d2 = Fr(0)
+        for a in range(3):
+            x = Fr(float(p[a]))
+            if x < lo[a]:
+                d2 += (lo[a] - x) ** 2
+            elif x > hi[a]:
+                d2 += (x - hi[a]) ** 2
+        out.append(d2 <= r2)
+    return np.array(out, dtype=bool)
+
+
+def fan_with_index(v, faces):
+    F = []
+    for k, f in enumerate(faces):
+        f = [int(i) for i in f]
+        for i in range(1, len(f) - 1):
+            F.append([v[f[0]], v[f[i]], v[f[i + 1]], I(k)])
+    return F
+
+
+def sphero_exact_certificate(ctx, sp, r):
+    """`spheroExactCheck` (hypothesis of sphero_inside_iff_checked) evaluated exactly over Q on the IMPLEMENTATION'S OWN
+    data: the core's vertices / faces / _equations, and the extruded prisms built exactly as is_inside builds them."""
+    import coxeter
+    cp = sp.polyhedron
+    v = _f(cp.vertices)
+    eqs = _f(cp._equations)
+    faces = []
+    for face, normal, e in zip(cp.faces, cp.normals, eqs):
+        base = v[face]
+        if r > 0:
+            with warnings.catch_warnings():
+                warnings.simplefilter("ignore")
+                pr = coxeter.shapes.ConvexPolyhedron([*(base - r * normal), *(base + r * normal)])
+            pv = _f(pr.vertices)
+            faces.append([e[:3], float(e[3]), L(list(base)), L([q for q in _f(pr._equations)]),
+                          L([float(x) for x in dyadic_weights(len(pv))]), L(fan_with_index(pv, pr.faces))])
+        else:
+            faces.append([e[:3], float(e[3]), L(list(base)), L([]), L([]), L([])])
+    out = ctx.driver.Q("spec.in3.spheroexact", L(list(v)), float(r), L([float(x) for x in dyadic_weights(len(v))]),
+                       L(fan_with_index(v, cp.faces)), L(faces))
+    return bool(out[0]), bool(out[1]), int(out[2]), int(out[3])
+
+
+def eval_exactbox(ctx, case):
+    import coxeter
+    lo, hi, r = _f(case["lo"]), _f(case["hi"]), float(case["radius"])
+    P = _f(case["points"]).reshape(-1, 3)
+    labels = case["labels"]
+    v = np.array(list(itertools.product(*zip(lo, hi))), dtype=float)
+    try:
+        sp = coxeter.shapes.ConvexSpheropolyhedron(v, r)
+    except Exception as e:  # noqa: BLE001
+        ctx.fail("ConvexSpheropolyhedron.__init__:raises", "constructor raised on a box", slim(case, []), repr(e))
+        return
+    ok, core_ok, bad_faces, bad_pairs = sphero_exact_certificate(ctx, sp, r)
+    ctx.count("cert:spheroexact:" + ("ok" if ok else "failed"))
+    ctx.count("sphero-radius:" + ("0:exactbox" if r == 0 else "exactbox"))
+    if not ok:
+        ctx.contract_failures.append({"contract": "spheroExactCheck on a dyadic axis-aligned box (implementation's own planes, faces, prisms)",
+                                      "got": {"core": core_ok, "bad_faces": bad_faces, "bad_pairs": bad_pairs,
+                                              "lo": lo.tolist(), "hi": hi.tolist(), "r": r}})
+    expect = box_exact_inside(lo, hi, r, P)
+    res, err = call_is_inside(sp, P)
+    if err is not None:
+        ctx.fail("ConvexSpheropolyhedron.is_inside:raises" + (":radius=0" if r == 0 else ""), "is_inside raised on a box",
+                 slim(case, [0]), err)
+        return
+    onb = np.array([lb.endswith(":on-boundary") for lb in labels])
+    for lb in labels:
+        ctx.count("points:" + lb)
+    # certified: sphero_inside_iff holds for every real point, boundary included, and all probes are exact in floating
+    # point: every probe is judged.  Not certified: boundary probes are left out.
+    judged = np.ones(len(P), dtype=bool) if ok else ~onb
+    ctx.count("cert:spheroexact:probes-judged", int(judged.sum()))
+    ctx.count("cert:spheroexact:boundary-probes-judged", int((judged & onb).sum()))
+    bad = np.nonzero(judged & (res != expect))[0]
+    if len(bad):
+        i = int(bad[0])
+        ctx.fail("ConvexSpheropolyhedron.is_inside:exact-box-criterion" + (":on-boundary" if onb[i] else ""),
+                 "on an exactly certified box (spheroExactCheck holds, so sphero_inside_iff applies: accepted <=> distance to the "
+                 "core <= r, boundary included) the verdict differs from the exact rational criterion",
+                 slim(case, [i]), [i, labels[i], bool(res[i]), bool(expect[i]), len(bad)])
+    check_batching(ctx, "ConvexSpheropolyhedron", sp, P, res, case, np.random.default_rng(len(P)), judged)
+
+
 # --------------------------------------------------------------------------- evaluation: sphere / ellipsoid
 
 
@@ -1064,7 +1209,9 @@ def curved_points(rng, cen, ax, n):
 
 def eval_case(ctx, case):
     cls = case["class"]
-    if cls in ("convex", "sphero"):
+    if cls == "exactbox":
+        eval_exactbox(ctx, case)
+    elif cls in ("convex", "sphero"):
         eval_convex(ctx, case)
     elif cls == "solid":
         eval_solid(ctx, case)
@@ -1163,6 +1310,12 @@ def run(ctx):
     for k in range(n_curved):
         case = make_curved_case(ctx, rng, big=(k < n_big))
         ctx.count("kind:" + case["class"])
+        ctx.case(case)
+        eval_case(ctx, case)
+    # exactly certified spheropolyhedra (drawn last: the cases above keep their random stream)
+    for k in range(ctx.budget(8, 60)):
+        case = make_exactbox_case(ctx, rng)
+        ctx.count("kind:exactbox")
         ctx.case(case)
         eval_case(ctx, case)
 
